@@ -248,8 +248,73 @@ def version_rule(c, o):
     return None
 
 
+RACE_PAIRS = [
+    # two threads validate at the same time (poll thread: an inbound line under the gateway's version; application
+    # thread: a command under another version, e.g. a node's own) - each verdict must be the one it gets alone
+    (("2.1", "1;255;3;0;32;500"), ("2.3.2", "1;1;1;0;2;1")),
+    (("1.4", "1;1;1;0;40;ff00aa"), ("1.5", "1;1;1;0;40;ff00aa")),
+    (("2.2", "1;255;3;0;33;1"), ("2.0", "1;255;3;0;22;5")),
+    (("1.5", "1;1;1;0;47;text"), ("2.0", "1;1;1;0;47;text")),
+]
+
+
+def _verdict(ver, line):
+    import voluptuous as vol
+    from mysensors.message import Message
+    try:
+        Message(line).validate(ver)
+        return "1"
+    except vol.Invalid:
+        return "0"
+    except Exception as exc:      # noqa: BLE001
+        return "exc:" + type(exc).__name__
+
+
+def _race_task(i):
+    import logging
+    logging.disable(logging.CRITICAL)
+    from harness.impl import sched
+    from mysensors import const, message
+    from mysensors.const import get_const
+    for v in ("1.4", "1.5", "2.0", "2.1", "2.2"):
+        get_const(v)                       # module caches filled: every run executes the same lines
+    (va, la), (vb, lb) = RACE_PAIRS[i]
+    alone = (_verdict(va, la), _verdict(vb, lb))
+
+    def make():
+        out = {}
+        return [lambda: out.__setitem__("a", _verdict(va, la)), lambda: out.__setitem__("b", _verdict(vb, lb))], \
+            lambda: (out.get("a"), out.get("b"))
+    n, bad = 0, None
+    try:
+        for choices, trace, o in sched.explore(make, [const.__file__, message.__file__], 1):
+            n += 1
+            if o != alone and bad is None:
+                bad = (choices, o)
+    except sched.HarnessError as exc:
+        return i, n, alone, None, str(exc)
+    return i, n, alone, bad, None
+
+
+def run_validate_races(ctx, res):
+    jobs = min(4, len(RACE_PAIRS))
+    with ProcessPoolExecutor(jobs) as ex:
+        for i, n, alone, bad, herr in ex.map(_race_task, range(len(RACE_PAIRS))):
+            res.evaluations += n
+            res.count("validate-race-schedules", n)
+            if herr:
+                res.violate("validate-race/harness", f"pair {RACE_PAIRS[i]}: HarnessError {herr}", {"kind": "race", "pair": i},
+                            kind="harness", found_input=False)
+            if bad:
+                choices, o = bad
+                res.violate("verdict-depends-on-concurrent-validation",
+                            f"validating {RACE_PAIRS[i][0]} and {RACE_PAIRS[i][1]} in two threads gives {o}, alone {alone}",
+                            {"kind": "race", "pair": i, "choices": choices})
+
+
 def run(ctx, res):
     tables_do_not_depend_on_loaded_versions(res)
+    run_validate_races(ctx, res)
     cases = corpus_cells(ctx) + grid(ctx) + numeric_version_cells(ctx) + child_cases(ctx)
     jobs = min(16, os.cpu_count() or 4)
     with ProcessPoolExecutor(jobs) as ex:
@@ -318,6 +383,9 @@ def run(ctx, res):
 
 def replay(ctx, case):
     c = case["case"] if "case" in case else case
+    if c.get("kind") == "race":
+        i, n, alone, bad, herr = _race_task(c["pair"])
+        return {"pair": RACE_PAIRS[c["pair"]], "alone": alone, "concurrent": bad and bad[1], "violates": bool(bad)}
     if c.get("kind") == "isolation":
         r = core.Result(ID)
         tables_do_not_depend_on_loaded_versions(r)
